@@ -43,7 +43,7 @@ PROPS = {
     ),
     "C03": dict(
         title="Exactly min(T, confirmed) distinct winners",
-        lean=["LP.Props.C03base"],
+        lean=["LP.Props.C03base", "LP.Props.C03final"],
         profiles=[("life", ALL_VARIANTS), ("fy", ["base", "guarV2"])],
         R={"ret": {"select", "distribute", "secondary"}},
         D={"nrw": SELECT_EPS, "status": SELECT_EPS, "cpay": SELECT_EPS, "last": SELECT_EPS, "addr.win": SELECT_EPS},
@@ -108,7 +108,7 @@ PROPS = {
     ),
     "C12": dict(
         title="Guarantee reserve conserved; leftovers re-drawn",
-        lean=["LP.Props.C12reserve"],
+        lean=["LP.Props.C12reserve", "LP.Props.C03final"],
         profiles=[("life", GUAR)],
         R={"st": [(ALLOC_EPS | BL_EPS, RESERVE_MSGS), ({"deposit"}, ["Wrong amount"])],
            "draws": {"distribute", "secondary"}},
